@@ -362,6 +362,22 @@ def run_angles(case, out):
     if ok:
         pr2 = np.asarray(pr2, float)
         out.check(pr2.shape == (n, 3) and bool(np.all(np.abs(pr2 - 2.5 * zax) < 1e-9)), "visualize_rotations:radius", lambda: f"{pr2.shape} for {n} orientations")
+    # with the plot actually drawn (the default) and per-orientation colours, the returned array is still one z-axis image
+    # per orientation, in the order of the orientations (now and then only: figures are slow)
+    if n <= 40 and (n + int(abs(E[0, 0]) * 10)) % 12 == 0:
+        import matplotlib.pyplot as plt
+        out.label("visualize_with_plot_and_colours")
+        cm = (np.cos(np.arange(n) * 2.3) * 0.5 + 0.5)  # not monotone
+        ok, pp = call(out, "visualize_rotations(plot)", lambda: geom.visualize_rotations(srot.from_matrix(M), color_map=cm.copy()))
+        plt.close("all")
+        if ok:
+            pp = np.asarray(pp, float)
+            out.check(pp.shape == (n, 3) and bool(np.all(np.abs(pp - zax) < 1e-9)), "visualize_rotations:plotted_call_returns_other_or_reordered_vectors", lambda: f"{pp.shape}")
+        ok, pa = call(out, "visualize_angles(plot)", lambda: geom.visualize_angles(E.copy(), color_map=cm.copy()))
+        plt.close("all")
+        if ok:
+            pa = np.asarray(pa, float)
+            out.check(pa.shape == (n, 3) and bool(np.all(np.abs(pa - zax) < 1e-9)), "visualize_angles:plotted_call_returns_other_or_reordered_vectors", lambda: f"{pa.shape}")
     # no state may survive a call: the same questions again give the same answers
     ok, pr3 = call(out, "visualize_rotations", lambda: geom.visualize_rotations(srot.from_matrix(M), plot_rotations=False))
     if ok:
@@ -372,6 +388,11 @@ def run_angles(case, out):
         want = np.array([oracle.angle_between_deg(a_[:, 2], b_[:, 2]) for a_, b_ in zip(M, M[::-1])])
         cd_ = np.asarray(cd, float).reshape(-1)
         out.check(cd_.shape == want.shape and bool(np.all(np.abs(cd_ - want) <= TOL)), "cone:result_depends_on_earlier_call", "")
+    if "nv" in dir() and isinstance(nv, np.ndarray) and nv.size:
+        try:
+            nv *= -12.0  # what a function returned belongs to the caller: changing it must not change the next answer
+        except (ValueError, TypeError):
+            pass
     ok, nv2 = call(out, "euler_angles_to_normals", lambda: geom.euler_angles_to_normals(E.copy()))
     if ok:
         out.check(bool(np.all(np.abs(np.asarray(nv2, float) - zax) < 1e-9)), "normals:result_depends_on_earlier_call", "")
